@@ -32,9 +32,20 @@ def FactsSafe (f : Facts.SelectFacts) : Prop :=
 
 instance (f : Facts.SelectFacts) : Decidable (FactsSafe f) := by unfold FactsSafe; exact inferInstance
 
+/-- the rule the property states: configured priorities, then the enclosing object's service, then the gateway -/
+def spec : Facts.SelectFacts :=
+  { recognised := true, singleShortCircuit := true, fallbackFirst := true, order := [.configured, .parent, .internal] }
+
 /-- `selectLocation` as the current source denotes it -/
 def selectLocation (f : Facts.SelectFacts) (possible configured : List Loc) (parent internal : Loc) : Option Loc :=
   choose possible (prioOf f.order configured parent internal)
+
+/-- when the extracted facts are safe, the source denotes the specified rule (the driver always answers with
+    the specified rule, so that a replay found on a changed tree is a real counterexample to the property) -/
+theorem selectLocation_of_safe {f : Facts.SelectFacts} (h : FactsSafe f) (possible configured : List Loc)
+    (parent internal : Loc) :
+    selectLocation f possible configured parent internal = selectLocation spec possible configured parent internal := by
+  unfold selectLocation; rw [h.2.2.2]; rfl
 
 theorem prioOf_safe (configured : List Loc) (parent internal : Loc) :
     prioOf [.configured, .parent, .internal] configured parent internal = configured ++ [parent, internal] := by
